@@ -291,10 +291,12 @@ func (e *Exec) scalarOf(v Val) Scalar {
 	case GlobalAddr:
 		n := "|&glob_" + sanitize(x.Name) + "|"
 		e.decl(fmt.Sprintf("(declare-const %s Ref)", n))
+		e.declOwned(n, fmt.Sprintf("(assert (not (= %s null)))", n))
 		return S("%s", n)
 	case LocalAddr:
 		n := "|" + e.freshName("&local") + "|"
 		e.decl(fmt.Sprintf("(declare-const %s Ref)", n))
+		e.declOwned(n, fmt.Sprintf("(assert (not (= %s null)))", n))
 		e.localAddrs[n] = x
 		return S("%s", n)
 	case ElemAddr:
